@@ -24,4 +24,5 @@ def run(e, R, tier):
         P.r_pickler_select,
         P.r_reduce_arity,
         lambda e, R: S.r_state_sym(e, R, which=("Queue", "SimpleQueue")),
+        P.r_reduce_types,
     ])
